@@ -28,8 +28,8 @@ def feat(rng):
     if r < 0.45:
         return RG.Feat(operands=0.85, any=0.35, excess_ops=0.35, deref=0.4, groups=0.15, nots=0.1, hexh=0.35,
                        times_item=0.15, max_depth=1, max_spine=rng.choice([1, 2, 3]))
-    return RG.Feat(operands=0.7, groups=0.3, nots=0.2, onots=0.1, ogroups=0.15, icaps=0.1, ocaps=0.1, times_item=0.15,
-                   group_times=0.2, excess_ops=0.2, max_depth=2, max_spine=rng.choice([1, 2, 3]))
+    return RG.Feat(operands=0.7, groups=0.3, nots=0.2, onots=0.1, ogroups=0.15, icaps=0.1, ocaps=0.25, times_item=0.15,
+                   group_times=0.2, excess_ops=0.35, max_depth=2, max_spine=rng.choice([1, 2, 3]))
 
 
 def fixed_len(node):
